@@ -6,7 +6,7 @@ from fractions import Fraction
 from vlib import frac_str
 
 CLAIM = {
- "text": "Proof (Lean 4), partial: Jordan-Wigner is modelled term by term (ladder operator -> 1/2 (X -+ iY) Z...Z) together with the spin re-ordering map; proved for every register size, every mode and every Fock state: the encoded annihilation / creation operator acts on the qubit basis state exactly as the fermionic one acts on the occupation state (intertwining with the identity basis map, so every polynomial in the ladder operators - every fermionic operator - has literally the same matrix, hence the same spectrum, and the canonical anticommutation relations are inherited); the up-then-down re-indexing is a bijection of the modes for even n. Bravyi-Kitaev, JKMN, scBK, hard-core-boson and combinatorial encodings call openfermion / tree constructions that are NOT modelled in Lean: they are checked by the numerical oracle only - CAR of all encoded ladder operators, linearity, products and adjoints as exact operator identities, and spectrum equality on the represented space (full space; (N parity, N_alpha parity) sector for scBK; seniority-zero space for HCB; fixed (n_alpha, n_beta) sector for combinatorial) for random Hermitian number- and spin-conserving Hamiltonians, both orderings, operators not touching the top index.",
+ "text": "Proof (Lean 4), partial: Jordan-Wigner is modelled term by term (ladder operator -> 1/2 (X -+ iY) Z...Z) together with the spin re-ordering map; proved for every register size, every mode and every Fock state: the encoded annihilation / creation operator acts on the qubit basis state exactly as the fermionic one acts on the occupation state (intertwining with the identity basis map, so every polynomial in the ladder operators - every fermionic operator - has literally the same matrix, hence the same spectrum, and the canonical anticommutation relations are inherited: they are proved on the Fock-space action for the same mode (a a+ + a+ a = 1, a a = a+ a+ = 0) and for different modes (all four combinations anticommute), for every pair of modes and every register size); the up-then-down re-indexing is a bijection of the modes for even n. Bravyi-Kitaev, JKMN, scBK, hard-core-boson and combinatorial encodings call openfermion / tree constructions that are NOT modelled in Lean: they are checked by the numerical oracle only - CAR of all encoded ladder operators, linearity, products and adjoints as exact operator identities, and spectrum equality on the represented space (full space; (N parity, N_alpha parity) sector for scBK; seniority-zero space for HCB; fixed (n_alpha, n_beta) sector for combinatorial) for random Hermitian number- and spin-conserving Hamiltonians, both orderings, operators not touching the top index.",
  "note": "Trusted: Lean kernel + standard axioms; openfermion's jordan_wigner (compared term by term with the model), bravyi_kitaev, bravyi_kitaev_tree; numpy eigvalsh. Register sizes in the oracle: 4 and 6 spin-orbitals.",
  "technique": "Lean 4 intertwining theorem for Jordan-Wigner (all sizes) + term-level correspondence + numerical spectrum/CAR oracle for the other encodings"}
 
